@@ -1202,3 +1202,9 @@ benign_patch("refactor_s4_17", "benign/set4_refactor17.diff", note='MergingItera
 benign_patch("refactor_s4_18", "benign/set4_refactor18.diff", note='DatabaseIterator::next: duplicated block hoisted out of both branches')
 benign_patch("refactor_s4_19", "benign/set4_refactor19.diff", note='FilterBlockReader::key_may_match: else + trailing true -> early return, match as tail')
 benign_patch("refactor_s4_20", "benign/set4_refactor20.diff", note='lock_file (both disk file systems): shared private fn create_and_lock_file')
+
+# ---- round 4: GRD-19 / GRD-20 / GRD-21
+mut("seek_compaction_skips_level0_expansion", ["C05", "C03", "C01", "C07"], "GRD-19", patch="seek_compaction_skips_level0_expansion.diff")
+mut("any_current_open_error_reinitialises", ["C08", "C02", "C11"], "GRD-20", patch="any_current_open_error_reinitialises.diff",
+    note="a transient failure to open CURRENT of an existing database starts a new one; GC then deletes every table")
+mut("failed_install_removes_live_manifest", ["C08", "C02", "C11"], "GRD-21", patch="failed_install_removes_live_manifest.diff")
